@@ -132,6 +132,18 @@ def gen_crashes(rng):
     return out
 
 
+def gen_deaths(rng, kmax=14):
+    """REAL process death (a subprocess that os._exit()s, so no exception handler, context manager or atexit hook runs and no buffer
+    is flushed) right after the k-th file primitive that returns once the server's answer is in - whatever primitives the
+    implementation uses - from an EMPTY cache directory and from a filled one; then a new client in a new process reads the cache."""
+    out = []
+    for filled in (False, True):
+        for k in range(kmax):
+            out.append({"kind": "process-death", "filled": filled, "k": k, "cfg": list(CFG0),
+                        "profiles": {"1": {"date": 10, "len": 3}, "2": {"date": 11, "len": 0}, "3": {"date": 12, "len": 1}}})
+    return out
+
+
 def merges(a, b):
     """all interleavings of a copies of 0 and b copies of 1."""
     if a == 0:
@@ -242,8 +254,59 @@ def classify(exc):
     return "crash"
 
 
+def run_death_case(case, workdir):
+    """process-death exploration: no model observation (the model's kill is compared in the 'crash' cases); the property is judged:
+    after the death the cache file is absent, the whole old or the whole new profile - never a torn one - and a later request
+    by a new client against a well-behaved server succeeds."""
+    L = H.lib()
+    shutil.rmtree(workdir, ignore_errors=True)
+    cachedir = H.set_datadir(workdir)
+    table = build_profiles(case)
+    cfg = case["cfg"]; name = cache_name(cfg); url = URLS[cfg[0]]
+    of = lambda n, pre: None if n is None else "%s%d" % (pre, n)
+    fails = []
+    new_client = lambda: L.OFXClient(url, org=of(cfg[1], "ORG"), fid=of(cfg[2], "FID"))
+    if case["filled"]:
+        with H.FakeNet(lambda rq: H.Resp(body=table[1])):
+            new_client().request_profile()
+    path = os.path.join(cachedir, name)
+    before = open(path, "rb").read() if os.path.exists(path) else None
+    body_file = os.path.join(workdir, "answer.bin")
+    with open(body_file, "wb") as f:
+        f.write(table[2])
+    env = {k: os.environ[k] for k in ("XDG_DATA_HOME", "XDG_CONFIG_HOME", "XDG_CACHE_HOME", "HOME")}
+    rc, out = H.run_death_child({"env": env, "datadir": workdir, "body_file": body_file, "url": url, "cfg": cfg, "k": case["k"]}, workdir)
+    if rc not in (0, 77):
+        raise RuntimeError("process-death child failed (%d): %s" % (rc, out[-1500:]))
+    after = open(path, "rb").read() if os.path.exists(path) else None
+    died = rc == 77
+    where = out.strip().splitlines()[-1] if out.strip() else ""
+    ok_contents = [None, table[2]] + ([before] if before is not None else [])
+    if after not in ok_contents:
+        fails.append(("cache-not-whole:crash-leaves-truncated-file",
+                      "the process died (%s) while request_profile stored the first answer%s: %s now holds %d bytes - neither the old profile, nor the new one (%d bytes), nor absent"
+                      % (where, " over a cached profile" if case["filled"] else " in an EMPTY cache directory", name, len(after), len(table[2])), {"k": case["k"]}))
+    if not died and after != table[2]:
+        fails.append(("cache-not-updated", "request_profile returned normally but %s does not hold the profile just accepted" % name, {"k": case["k"]}))
+    # a new client (fresh object; the cache is all that survives the process) asks again; the server behaves
+    for word, body in (("uptodate", H.make_status_only(1)) if after is not None else ("newer", table[3]), ("newer", table[3])):
+        try:
+            with H.FakeNet(lambda rq: H.Resp(body=body)):
+                data = new_client().request_profile().read()
+            if data not in table.values():
+                fails.append(("returns-mixed-content", "after the death (%s) a later request returned %d bytes that are no complete profile" % (where, len(data)), {"k": case["k"]}))
+        except Exception as e:
+            fails.append(("cache-poisoned:later-request-fails-after-crash",
+                          "after the process died (%s) a later request by a new client against a well-behaved server (%s) failed with %s: %s holds %s"
+                          % (where, word, type(e).__name__, name, "nothing" if after is None else "%d bytes" % len(after)), {"k": case["k"]}))
+            break
+    return {"death": {"died": died, "where": where, "after": None if after is None else ("new" if after == table[2] else ("old" if after == before else "torn"))}}, fails
+
+
 def run_case(case, workdir):
     """-> (observation for the model, failures of the property on the implementation)."""
+    if case.get("kind") == "process-death":
+        return run_death_case(case, workdir)
     L = H.lib()
     shutil.rmtree(workdir, ignore_errors=True)
     cachedir = H.set_datadir(workdir)
@@ -499,23 +562,29 @@ def _run(rep, tier, rng):
     if thorough:
         cases += gen_sequences(rng, 4, 2500, [5, 6])
         cases += gen_crashes(rng)
+        cases += gen_deaths(rng, 30)
         cases += gen_races(rng, [(False, True), (False, False), (True, True), (True, False)], 6)
         cases += gen_races(rng, [(False, True)], 6, full=True, sample=3500)
         cases += gen_servers(rng, 60)
     else:
         cases += gen_sequences(rng, 3, 150, [4])
         cases += gen_crashes(rng)
+        cases += gen_deaths(rng)
         cases += gen_races(rng, [(False, True), (True, False)], 6, sample=160)
         cases += gen_servers(rng, 8)
     results = H.pmap(run_case, cases, "c15", chunk=6)
-    items, kept = [], []
+    items, kept, deaths = [], [], []
     for i, case in enumerate(cases):
         obs, fails = results[i]
         for key, what, extra in fails:
             rep.failures.append(C.Failure(key, what, {"case": case, "at": extra}))
+        if "death" in obs:
+            rep.count(json.dumps(case, sort_keys=True), nontrivial=obs["death"]["died"], kind="process-death:" + ("died-" + str(obs["death"]["after"]) if obs["death"]["died"] else "completed"))
+            deaths.append(obs["death"])
+            continue
         items.append(c_case(case, obs)); kept.append((case, obs))
         rep.count(json.dumps(case, sort_keys=True), nontrivial=any(r is not None and r[0] == "ok" for r in obs["results"]), kind=case["kind"])
-        if i in (0, len(cases) // 2, len(cases) - 1):
+        if i in (0, len(cases) // 2, len(cases) - 1) and "steps" in obs:
             rep.sample({"case": {k: v for k, v in case.items() if k != "profiles"}, "implementation": {"steps": obs["steps"][:40], "results": obs["results"], "asked": obs["asked"]}})
     rep.rule = ("corpus first; (a) every sequence of server behaviours {newer, same, older, up-to-date, error status, garbage, transport error} up to length 3 (thorough: 4) "
                 "plus sampled longer ones, each call on a fresh or the same client object; (b) a kill before every file-system/network step of a call that is about to rewrite the "
@@ -524,6 +593,11 @@ def _run(rep, tier, rng):
                 "equal/different ORG/FID/URL. Each run is judged by an independent oracle for the property (whole, newest, date asked, untouched on failure, never poisoned, right "
                 "server) and its logged steps are replayed through the Gallina model (vm_compute) comparing step names, cache content after every step, results, dates asked and "
                 "leftover temporary files. non-trivial = some call returned a profile; distinct by the whole case")
+    rep.extra["process_death"] = {"runs": len(deaths), "died": sum(1 for d in deaths if d["died"]),
+                                  "points": sorted({d["where"].split(":")[-1] for d in deaths if d["died"]}),
+                                  "cache_after_death": {k: sum(1 for d in deaths if d["died"] and d["after"] == k) for k in (None, "old", "new", "torn")}}
+    if deaths and not any(d["died"] for d in deaths):
+        rep.broken.append("process-death exploration: no file primitive was seen after the server's answer (the harness no longer observes how the cache is written)")
     bad = C.coq_bad_indices(PROP, "cache", ["Model.ProfileCache", "Model.ProfileCacheCases"], "ccase_ok", "ccase", items, shard=120 if thorough else 60)
     for i in bad[:50]:
         rep.disagreements.append({"case": kept[i][0], "implementation": {k: v for k, v in kept[i][1].items() if k in ("steps", "results", "asked", "tmps")}})
@@ -538,7 +612,7 @@ def replay(obj):
     H.setup_env("c15-replay")
     case = obj["replay"]["case"] if "replay" in obj else obj["case"]
     obs, fails = run_case(case, os.path.join(C.BUILD, "scratch", "c15-replay", "d"))
-    print("steps performed:", " ".join("%d:%s" % (t, n) for t, n in obs["steps"]))
+    print("steps performed:", " ".join("%d:%s" % (t, n) for t, n in obs["steps"]) if "steps" in obs else obs)
     for key, what, extra in fails:
         print("property fails: [%s] %s" % (key, what))
     want = obj.get("key")
